@@ -500,6 +500,9 @@ func runC19(p *Prog, r *Report) {
 		}
 		r.End()
 	}
+	if want("C19.8") {
+		ruleMarkFileNum(p, r, "C19.8")
+	}
 	if want("C19.7") {
 		ruleVersionGetGuards(p, r, "C19.7")
 	}
